@@ -187,7 +187,7 @@ class Verifier(Executor):
                         con = self.contracts.interfaces[target.split(":", 1)[1]]
                         pn = list(con.types.keys())
                     elif kind == "func":
-                        fi = self.repo.functions[target]
+                        fi = self.repo.functions[target.split("#")[0]]
                         con = self.contracts.contracts.get(target)
                         pn = [a.arg for a in fi.node.args.args]
                     else:
